@@ -117,7 +117,9 @@ TraceReq ==
                 <<"c11", "C11_FirstRequest", checked => firstOK>>,
                 <<"c11", "C11_NextRequest", checked => phaseOK>>,
                 <<"c11", "C11_Query", checked => queryOK>>,
-                <<"c20", "C20_LookAhead", (known /\ e.kind = "seg" /\ ~Stream(j).ll) => c.nseg + 1 <= Done(j) + 4>>,
+                \* the stub answers at once, so a segment requested is a segment downloaded: with it, at most one segment is being
+                \* processed and two are waiting (requested <= fully delivered + 3)
+                <<"c20", "C20_LookAhead", (known /\ e.kind = "seg" /\ ~Stream(j).ll) => c.nseg + 1 <= Done(j) + 3>>,
                 <<"c12", "C12_RequestAfterOutcome", ~st.waited>>
               >>)
      IN /\ cs' = IF known THEN [cs EXCEPT ![j] = c2] ELSE cs
